@@ -362,6 +362,18 @@ func RunC16(c *Ctx) {
 					c.Rec.Violate(cs, "value tree changed when the caller wrote into the spare capacity of its own slices (parts of the result share a backing array)", "ReadValue", show(snap), show(v))
 					snap = refmodel.CopyTree(v)
 				}
+				// the StdLibCompatible helpers take the tree as their INPUT: they must not write to it
+				// (seeded change C16r7-m1: the 'clone' was append(arg[:0], arg...), i.e. the argument)
+				switch t := v.(type) {
+				case []interface{}:
+					rjson.StdLibCompatibleSlice(t)
+				case map[string]interface{}:
+					rjson.StdLibCompatibleMap(t)
+				}
+				if !refmodel.EqTree(v, snap) {
+					c.Rec.Violate(cs, "StdLibCompatibleSlice/Map modified the value tree it was given", "StdLibCompatibleSlice", show(snap), show(v))
+					snap = refmodel.CopyTree(v)
+				}
 				for i := range w {
 					w[i] = 0xEE
 				}
